@@ -83,6 +83,16 @@ pub(crate) fn gen_lit_str(s: &str) -> String {
     ret
 }
 
+/// Generate a number literal that both JavaScript and WXML expressions read back as the same value.
+pub(crate) fn gen_lit_float(x: f64) -> String {
+    if x.is_infinite() {
+        // `inf` would be read as an identifier; an out-of-range literal is read as infinity
+        if x < 0. { "-1e999".to_string() } else { "1e999".to_string() }
+    } else {
+        x.to_string()
+    }
+}
+
 pub(crate) fn dash_to_camel(s: &str) -> CompactString {
     let mut camel_name = CompactString::new("");
     let mut next_upper = false;
